@@ -71,6 +71,7 @@ def check(repo, tier="quick"):
     res.floor("C02.3", 8)
     res.floor("C02.5", 50)
     res.floor("C02.6", 150)
+    res.floor("C02.4", 25)
     res.assumptions = [
         "resource exhaustion (RecursionError, MemoryError) and IndexError inside the spec-pinned array arithmetic are outside this check",
         "spec-pinned lines are as the standard's pseudocode (the repository's own tests/verification pins them)",
